@@ -46,7 +46,7 @@ C02_Order == \A p \in h.before :
 C02_ReduceOrder == h.red = SelectSeq(h.recvd, LAMBDA a : a \notin h.vetoed /\ InSeq(h.red, a))
 
 (* C03: direct subscribers *)
-AllDispatch(a) == h.chain[a] # <<>> /\ \A i \in 1..Len(h.chain[a]) : RedScript[h.chain[a][i]][Kind[a]].op = "D"
+AllDispatch(a) == h.chain[a] # <<>> /\ \A i \in 1..Len(h.chain[a]) : RedScript[h.chain[a][i]][Kind[a]].op \in {"D", "G"}
 AllKeep(a) == h.chain[a] # <<>> /\ \A i \in 1..Len(h.chain[a]) : RedScript[h.chain[a][i]][Kind[a]].op = "K"
 C03_OnlyDispatch == \A i \in 1..Len(h.exp) : ~AllKeep(h.exp[i].a) /\ h.exp[i].a \notin h.supp
 C03_EveryDispatch == RDone => \A a \in SetOfSeq(h.red) : AllDispatch(a) /\ a \notin h.supp => a \in ActsIn(h.exp)
